@@ -66,6 +66,15 @@ structure Inv (env : Env) (U : Header → Prop) (g : Header) (s : State) : Prop 
   head : aget s.hdr (hkey env s.head) = some s.head
   roots : ∀ n a, walkCur s n s.head = some a → aget s.cons a.number = some (consOf a)
 
+/-- the part of the invariant that survives pruning: key consistency, head stored, roots along the head's stored ancestry -/
+structure Core (env : Env) (U : Header → Prop) (s : State) : Prop where
+  key : ∀ k h, aget s.hdr k = some h → k = hkey env h ∧ U h
+  head : aget s.hdr (hkey env s.head) = some s.head
+  roots : ∀ n a, walkCur s n s.head = some a → aget s.cons a.number = some (consOf a)
+
+theorem Inv.core {env : Env} {U : Header → Prop} {g : Header} {s : State} (hi : Inv env U g s) : Core env U s :=
+  ⟨hi.key, hi.head, hi.roots⟩
+
 /-- `h` is in the header index -/
 def Stored (env : Env) (s : State) (h : Header) : Prop := aget s.hdr (hkey env h) = some h
 
@@ -89,7 +98,7 @@ theorem parent_facts (hU : UOk env U) {s : State} (hk : ∀ k h, aget s.hdr k = 
   have : hkey env p = (h.parentHash, pred64 h.number) := by simp [hkey, e.1, e.2]
   rw [this]; exact hp
 
-theorem stored_U {s : State} (hi : Inv env U g s) {h : Header} (hs : Stored env s h) : U h := (hi.key _ _ hs).2
+theorem stored_U {s : State} (hi : Core env U s) {h : Header} (hs : Stored env s h) : U h := (hi.key _ _ hs).2
 
 /-- same parent hash and same number: same parent lookup -/
 theorem parentOf_congr (s : State) {a b : Header} (h1 : a.parentHash = b.parentHash) (h2 : a.number = b.number) :
@@ -112,7 +121,7 @@ theorem up_add (s : State) (a b : Nat) (h : Header) :
     | none => simp
     | some p => simp [ih]
 
-theorem up_facts (hU : UOk env U) {s : State} (hi : Inv env U g s) :
+theorem up_facts (hU : UOk env U) {s : State} (hi : Core env U s) :
     ∀ (n : Nat) {h x : Header}, Stored env s h → walkCur s n h = some x → x.number + n = h.number ∧ Stored env s x := by
   intro n
   induction n with
@@ -142,7 +151,7 @@ theorem up_exists (hU : UOk env U) {s : State} (hi : Inv env U g s) :
     intro h hs hn
     rcases hi.closed _ _ hs with e | ⟨_, p, hp⟩
     · subst e; omega
-    · obtain ⟨e1, _, sp⟩ := parent_facts hU hi.key (stored_U hi hs) hp
+    · obtain ⟨e1, _, sp⟩ := parent_facts hU hi.key (stored_U hi.core hs) hp
       obtain ⟨x, hx⟩ := ih sp (by omega)
       exact ⟨x, by rw [up_succ, hp]; simpa using hx⟩
 
@@ -242,7 +251,7 @@ def Asc (env : Env) (s : State) : List Header → Nat → Prop
   | [], _ => True
   | y :: ys, t => y.number = t ∧ Stored env s y ∧ Asc env s ys (t + 1)
 
-theorem asc_path (hU : UOk env U) {s : State} (hi : Inv env U g s) : ∀ (n : Nat) (h x : Header), Stored env s h →
+theorem asc_path (hU : UOk env U) {s : State} (hi : Core env U s) : ∀ (n : Nat) (h x : Header), Stored env s h →
     walkCur s n h = some x → Asc env s (pathList s n h).reverse (x.number + 1) := by
   intro n
   induction n with
@@ -353,8 +362,8 @@ theorem walkBoth_spec (hU : UOk env U) {s : State} (hi : Inv env U g s) :
         · exact h
       obtain ⟨pc, hpc⟩ := hpc
       obtain ⟨pn, hpn⟩ := hpn
-      obtain ⟨e1, _, spc⟩ := parent_facts hU hi.key (stored_U hi sc) hpc
-      obtain ⟨e2, _, spn⟩ := parent_facts hU hi.key (stored_U hi sn) hpn
+      obtain ⟨e1, _, spc⟩ := parent_facts hU hi.key (stored_U hi.core sc) hpc
+      obtain ⟨e2, _, spn⟩ := parent_facts hU hi.key (stored_U hi.core sn) hpn
       obtain ⟨j, c2, n2, hw, hc2, hn2, hpe⟩ := ih pc pn (acc ++ [env.hash new]) (st + 1) spc spn (by omega) (by omega)
       refine ⟨j + 1, c2, n2, ?_, ?_, ?_, hpe⟩
       · simp only [walkBoth, hph, ↓reduceIte, hpn, hpc, hw, pathList]
@@ -363,7 +372,7 @@ theorem walkBoth_spec (hU : UOk env U) {s : State} (hi : Inv env U g s) :
       · rw [up_succ, hpn]; simpa using hn2
 
 /-- the repaired last loop: everything on the new branch above the common parent is re-pointed -/
-theorem rcFinish_spec (hU : UOk env U) {s : State} (hi : Inv env U g s) {c cur2 new2 : Header} (sc : Stored env s c)
+theorem rcFinish_spec (hU : UOk env U) {s : State} (hi : Core env U s) {c cur2 new2 : Header} (sc : Stored env s c)
     {D E F : Nat} (hn2 : walkCur s D c = some new2) (hc2 : walkCur s E s.head = some cur2)
     (hpe : cur2.parentHash = new2.parentHash) (e1 : cur2.number = F) (e2 : new2.number = F) :
     ∃ cons', rcFinish .fixed env s cur2 new2 ((pathList s D c).map env.hash) F = .ok { s with cons := cons' } ∧
@@ -419,15 +428,15 @@ theorem rcTail_spec (hU : UOk env U) {s : State} (hi : Inv env U g s) {c cur1 ne
     (e1 : cur1.number = si) (e2 : new1.number = si) :
     ∃ cons', rcTail .fixed env s cur1 new1 ((pathList s d2 c).map env.hash) si = .ok { s with cons := cons' } ∧
       ∀ n a, 1 ≤ n → walkCur s n c = some a → aget cons' a.number = some (consOf a) := by
-  obtain ⟨_, scur1⟩ := up_facts hU hi d1 hi.head hc1
-  obtain ⟨_, snew1⟩ := up_facts hU hi d2 sc hn1
+  obtain ⟨_, scur1⟩ := up_facts hU hi.core d1 hi.head hc1
+  obtain ⟨_, snew1⟩ := up_facts hU hi.core d2 sc hn1
   obtain ⟨j, cur2, new2, hw, hc2, hn2, hpe⟩ :=
     walkBoth_spec hU hi (si + 1) cur1 new1 ((pathList s d2 c).map env.hash) 0 scur1 snew1 (by omega) (by omega)
   have hD : walkCur s (d2 + j) c = some new2 := by rw [up_add, hn1]; simpa using hn2
   have hE : walkCur s (d1 + j) s.head = some cur2 := by rw [up_add, hc1]; simpa using hc2
-  obtain ⟨f1, _⟩ := up_facts hU hi j scur1 hc2
-  obtain ⟨f2, _⟩ := up_facts hU hi j snew1 hn2
-  obtain ⟨c', h1, h2⟩ := rcFinish_spec hU hi sc hD hE hpe (F := si - j) (by omega) (by omega)
+  obtain ⟨f1, _⟩ := up_facts hU hi.core j scur1 hc2
+  obtain ⟨f2, _⟩ := up_facts hU hi.core j snew1 hn2
+  obtain ⟨c', h1, h2⟩ := rcFinish_spec hU hi.core sc hD hE hpe (F := si - j) (by omega) (by omega)
   refine ⟨c', ?_, h2⟩
   simp only [rcTail, hw, Nat.zero_add]
   rw [← List.map_append, ← pathList_add s d2 j c new1 hn1]
@@ -441,13 +450,13 @@ theorem restrictChain_spec (hU : UOk env U) {s : State} (hi : Inv env U g s) {c 
   have hgh := stored_ge hi hi.head
   by_cases hgt : s.head.number > c.number
   · obtain ⟨cur1, hc1⟩ := up_exists hU hi (s.head.number - c.number) hi.head (by omega)
-    obtain ⟨f1, _⟩ := up_facts hU hi _ hi.head hc1
+    obtain ⟨f1, _⟩ := up_facts hU hi.core _ hi.head hc1
     obtain ⟨c', h1, h2⟩ := rcTail_spec hU hi sc hc1 (d2 := 0) (new1 := c) rfl (si := c.number) (by omega) rfl
     refine ⟨c', ?_, h2⟩
     simp only [restrictChain, hgt, ↓reduceIte, hc1, Nat.sub_self, walkNew]
     exact h1
   · obtain ⟨new1, hn1⟩ := up_exists hU hi (c.number - s.head.number) sc (by omega)
-    obtain ⟨f1, _⟩ := up_facts hU hi _ sc hn1
+    obtain ⟨f1, _⟩ := up_facts hU hi.core _ sc hn1
     obtain ⟨c', h1, h2⟩ := rcTail_spec hU hi sc (d1 := 0) (cur1 := s.head) rfl hn1 (si := s.head.number) rfl (by omega)
     refine ⟨c', ?_, h2⟩
     simp only [restrictChain, hgt, ↓reduceIte, walkNew_spec s _ c [] new1 hn1, List.nil_append]
@@ -503,7 +512,7 @@ theorem store_up (hU : UOk env U) {s : State} (hi : Inv env U g s) {c p : Header
     cases hp : parentOf s h with
     | none => rfl
     | some q =>
-      obtain ⟨_, _, sq⟩ := parent_facts hU hi.key (stored_U hi sh) hp
+      obtain ⟨_, _, sq⟩ := parent_facts hU hi.key (stored_U hi.core sh) hp
       simp [ih q sq]
 
 theorem store_inv (hU : UOk env U) {s : State} (hi : Inv env U g s) {c p : Header} (uc : U c)
@@ -558,7 +567,7 @@ theorem update_core (hU : UOk env U) {s : State} (hi : Inv env U g s) {c p : Hea
     by_cases hb : env.hash s.head = c.parentHash
     · refine ⟨(store env s c).cons, by simp [hb], ?_⟩
       intro n a hn ha
-      have hp : s.head = p := hU.inj _ _ (stored_U hi hi.head) (stored_U hi sp) (hb.trans eh.symm)
+      have hp : s.head = p := hU.inj _ _ (stored_U hi.core hi.head) (stored_U hi.core sp) (hb.trans eh.symm)
       obtain ⟨i, rfl⟩ : ∃ i, n = i + 1 := ⟨n - 1, by omega⟩
       rw [up_succ, hpc] at ha
       simp only [Option.bind_some] at ha
@@ -577,7 +586,7 @@ theorem update_core (hU : UOk env U) {s : State} (hi : Inv env U g s) {c p : Hea
       rw [← ha]
       refine (walkCur_hdr ?_ n c).symm
       rfl
-    obtain ⟨e3, _⟩ := up_facts hU hi2 n sc2 ha'
+    obtain ⟨e3, _⟩ := up_facts hU hi2.core n sc2 ha'
     show aget (aset c' c.number _) a.number = _
     by_cases hn : n = 0
     · subst hn
@@ -756,7 +765,7 @@ theorem step_fixed (hU : UOk env U) {s : State} (hi : Inv env U g s) {now : Nat}
   obtain ⟨s3, h3, hi3⟩ := update_core hU hi uc sp hv.hash hv.number
   refine ⟨_, ?_, hi3, rfl⟩
   unfold updateClient
-  simp only [hact, Bool.not_true, checkValidity_complete hpo hv, hnp]
+  simp only [hact, Bool.not_true, checkValidity_complete hpo hv, pruneStep, hnp]
   simp only [Bool.false_eq_true, ↓reduceIte, h3]
 
 /-- states of the repaired client reachable from its creation with `g` by any sequence of accepted updates
@@ -836,7 +845,7 @@ theorem ancestry_total (hU : UOk env U) (ug : U g) {chainId trusting : Nat} {s :
       aget s.cons k = some { time := a.time, root := a.root } := by
   have hi := reach_inv hU ug hr
   obtain ⟨a, ha⟩ := up_exists hU hi (s.head.number - k) hi.head (by omega)
-  obtain ⟨e, _⟩ := up_facts hU hi _ hi.head ha
+  obtain ⟨e, _⟩ := up_facts hU hi.core _ hi.head ha
   have e2 : a.number = k := by omega
   exact ⟨a, ha, e2, e2 ▸ hi.roots _ a ha⟩
 
@@ -925,13 +934,13 @@ theorem keyOk_step {env : Env} {U : Header → Prop} {v : Variant} {s s' : State
       simp only [hcv] at h
       cases hp : pruneHeight s now with
       | none =>
-        simp only [hp] at h
+        simp only [pruneStep, hp] at h
         cases h3 : (if env.hash s.head ≠ c.parentHash then restrictChain v env (store env s c) c else Outcome.ok (store env s c)) with
         | err e => simp only [h3] at h; cases h
         | panic e => simp only [h3] at h; cases h
         | ok s3 => simp only [h3] at h; cases h; exact hfin s s3 hk h3
       | some k =>
-        simp only [hp] at h
+        simp only [pruneStep, hp] at h
         cases hd : deleteAt s k with
         | err e => simp only [hd] at h; cases h
         | panic e => simp only [hd] at h; cases h
